@@ -535,6 +535,9 @@ def run(ctx):
     r_nameunique(ctx)
     r_align(ctx)
     r_hook_tables(ctx)
+    from . import hookprog
+    nt = hookprog.r_hook_tables(ctx)   # the hooks unrolled: a column per recorded sample, a Constraint object of its own in every cell
+    ctx.floor("tables of multipliers examined", nt, 30)
     r_name(ctx)
     n = r_tabletype(ctx)
     r_bypass(ctx)
